@@ -18,10 +18,10 @@ pub fn prop() -> Prop {
             "the geometric clause is only asserted for non-degenerate shapes (both sides > 0), as stated",
         ],
         subs: vec![
-            Sub::tape("rectangle", 16, 12_000, 300_000, |d, cx| run(d, cx, 0)),
-            Sub::tape("circle", 16, 12_000, 300_000, |d, cx| run(d, cx, 1)),
-            Sub::tape("ellipse", 16, 12_000, 300_000, |d, cx| run(d, cx, 2)),
-            Sub::tape("rounded_rectangle", 28, 16_000, 400_000, |d, cx| run(d, cx, 3)),
+            Sub::tape("rectangle", 16, 100_000, 1_500_000, |d, cx| run(d, cx, 0)),
+            Sub::tape("circle", 16, 100_000, 1_500_000, |d, cx| run(d, cx, 1)),
+            Sub::tape("ellipse", 16, 100_000, 1_500_000, |d, cx| run(d, cx, 2)),
+            Sub::tape("rounded_rectangle", 28, 140_000, 2_100_000, |d, cx| run(d, cx, 3)),
         ],
     }
 }
